@@ -369,7 +369,35 @@ def tcp_half(ctx, res):
             res.failures.append(dict(signature=fail["signature"], what=fail["what"], case=dict(tcp=sc), detail=None))
 
 
+def atomic_half(res):
+    """a stale update for run r arrives (on the replication thread) while the engine thread is completing r, and the
+    other way round, the second operation starting at every line of the first: progress never beats a completion - the
+    outcome is that of one of the two orders"""
+    import pC05
+    n = 0
+    for ci, (cfg, prefix, a, b) in enumerate(pC05.atomic_cases()):
+        rem = a if a[0] == "remote" else b
+        if rem[1]["comp"] or rem[1]["halt"] or not rem[1]["upd"]:
+            continue
+        for k in range(1, 400):
+            reached, got, serial, excs = SD.atomic_pair(cfg, prefix, a, b, k)
+            if not reached:
+                break
+            n += 1
+            if excs or got not in serial:
+                res.failures.append(dict(
+                    signature="stale-progress-beats-a-completion-between-threads",
+                    what="a %s operation started when a %s operation was at line %d of decider.py (a stale update for the run "
+                         "the engine thread is completing): notifications and final runs are those of neither order of the two%s"
+                         % (b[0], a[0], k, "; raised %r" % excs if excs else ""),
+                    case=dict(atomic=ci, line=k), detail=dict(got=repr(got)[:600], serial=repr(serial)[:1200])))
+                return n
+        res.note_case(("atomic", ci), True)
+    return n
+
+
 def run(ctx, res):
+    res.extra["two_thread_interleavings_stale_update_vs_completion"] = atomic_half(res)
     tcp_half(ctx, res)
     scs = gen_schedules(ctx)
     results = pmap(work, scs, chunksize=20)
@@ -409,6 +437,16 @@ def run(ctx, res):
 
 def replay(obj):
     case = obj.get("case")
+    if case and "atomic" in case:
+        import pC05
+        cfg, prefix, a, b = pC05.atomic_cases()[case["atomic"]]
+        reached, got, serial, excs = SD.atomic_pair(cfg, prefix, a, b, case["line"])
+        print("a %s operation started when a %s operation is at line %d of decider.py" % (b[0], a[0], case["line"]))
+        print("outcome          :", got)
+        print("serial a;b / b;a :", serial)
+        bad = bool(excs) or got not in serial
+        print("neither serial order" if bad else "equal to one of the serial orders")
+        return 1 if bad else 0
     if case and "tcp" in case:
         import pC12
         sc = case["tcp"]
